@@ -311,6 +311,32 @@ example : sessionSerial ⟨none, none, none, false⟩ (chosenProfile none ⟨.lo
     sessionConsistency ⟨some .all, none, none, false⟩ (chosenProfile (some ⟨.two, none⟩) ⟨.localQuorum, none⟩) = .all := by
   decide
 
+/-- **manual_paging_glue.** `*_single_page` sends the paging state the CALLER passed, whatever it is (absent, empty but
+present, long): the frame reads back to it; and a caller looping over the server's answers sends request `i+1` with
+exactly answer `i`. -/
+theorem manual_paging_glue (k : Codec) (p : PreparedInfo) (vals : List RawVal) (cfg : StmtConfig)
+    (sp : Option ExecProfile) (sd : ExecProfile) (conn : ConnCtx) (sps : Int32) (callerState : Option (List UInt8))
+    (states : List (List UInt8)) (f : List UInt8)
+    (h : encodeReq k (sessionSinglePageExecute p vals cfg sp sd conn sps callerState) none cfg.tracing = .ok f)
+    (hlen : f.length - 9 < 2 ^ 32) :
+    (∃ id mid pv, parseReq conn.metadataIdExt f = some ⟨false, cfg.tracing, 0, .execute id mid pv⟩ ∧
+      pv.pagingState = callerState ∧ pv.pageSize = some sps.toInt) ∧
+    sessionManualExecutePages p vals cfg sp sd conn sps states =
+      sessionSinglePageExecute p vals cfg sp sd conn sps none ::
+        states.map (fun s => sessionSinglePageExecute p vals cfg sp sd conn sps (some s)) ∧
+    (∀ text, sessionManualQueryPages text cfg sp sd conn sps states =
+      sessionSinglePageQuery text cfg sp sd conn sps none ::
+        states.map (fun s => sessionSinglePageQuery text cfg sp sd conn sps (some s))) := by
+  refine ⟨?_, ?_, ?_⟩
+  · have := session_execute_glue k p vals cfg sp sd conn .paged sps callerState f h hlen
+    exact ⟨_, _, _, this, rfl, rfl⟩
+  · simp [sessionManualExecutePages, List.map_map, Function.comp_def]
+  · intro text; simp [sessionManualQueryPages, List.map_map, Function.comp_def]
+
+example : (sessionManualExecutePages ⟨[9], 2, none, false⟩ [] ⟨none, none, none, false⟩ none ⟨.one, none⟩
+    ⟨.localQuorum, none, false⟩ 10 [[], [2, 0xAB]]).map (fun r => match r with | .execute _ _ p => p.pagingState | _ => none)
+    = [none, some [], some [2, 0xAB]] := by decide
+
 /-! ### Statement → PreparedStatement inheritance; `query_*` with values; `CachingSession` -/
 
 /-- **statement_config_inherited.** A request that goes PREPARE → EXECUTE from a configured *statement*
